@@ -143,14 +143,21 @@ class TypeRender:
         if not metas:
             return ''
         if len(metas) > 1 and self.sp('split', site) == 'separate':
-            return ' '.join('#[educe(%s)]' % m for m in metas) + ' '
-        return '#[educe(%s)] ' % ', '.join(metas)
+            return ' '.join('#[educe(%s%s)]' % (m, self.trail(site, k)) for k, m in enumerate(metas)) + ' '
+        return '#[educe(%s%s)] ' % (', '.join(metas), self.trail(site, 0))
 
     def meta(self, T, params, site):
         params = [p for p in params if p]
         if not params:
             return T
-        return '%s(%s)' % (T, ', '.join(self.order(params, site + '/order')))
+        return '%s(%s%s)' % (T, ', '.join(self.order(params, site + '/order')), self.trail(site, 'p'))
+
+    def trail(self, site, k):
+        """a trailing comma after the last element of a list (attribute list or parameter list), in a third of the
+        non-canonical renderings: never part of the request"""
+        if self.canonical:
+            return ''
+        return ',' if hpick(3, self.idx, 'trail', site, k) == 0 else ''
 
     def fname(self, v, i):
         if self.pool is None or i > len(self.pool):
